@@ -568,6 +568,21 @@ func genDispatch(t *rapid.T, q2heavy bool) DCase {
 			DStep{K: "pub", Topic: "a/b", QoS: 2, ID: id, Size: 200},
 			DStep{K: "pubrel"})
 	}
+	if rapid.IntRange(0, 7).Draw(t, "q2-burst") == 0 {
+		// a server with an in-flight window of 17-40 messages: after one completed exchange that
+		// many QoS 2 messages are open at once (the store of open exchanges grows while it is
+		// not at its start), then they are released in order
+		c.Steps = append(c.Steps,
+			DStep{K: "sub", Filters: []string{"#"}, Codes: []byte{2}},
+			DStep{K: "pub", Topic: "a/b", QoS: 2, ID: 50, Size: 6}, DStep{K: "pubrel"})
+		n := rapid.IntRange(17, 40).Draw(t, "q2-burst-n")
+		for i := 0; i < n; i++ {
+			c.Steps = append(c.Steps, DStep{K: "pub", Topic: "a/b", QoS: 2, ID: uint16(100 + i), Size: 6})
+		}
+		for i := 0; i < n; i++ {
+			c.Steps = append(c.Steps, DStep{K: "pubrel"})
+		}
+	}
 	if q2heavy {
 		// the receiver role needs subscriptions to hand messages on to: overlapping filters
 		// granted different QoS levels (a message may arrive at the highest of them)
